@@ -16,9 +16,12 @@ RULES = {
     "R2": "IR field agreement: for Model, Graph, Function, Node, Value and Attr, every public attribute the serializer "
     "reads is supplied by the deserializer when it builds that class (constructor argument or later store)",
     "R3": "declare before resolve in _deserialize_graph / deserialize_function (shared with C17-R3)",
+    "R5": "scope precedence (shared rule S2): every lookup over the deserializer's stack of per-graph name tables lets the "
+          "innermost binding win — first hit of a reversed scan, last write of a forward merge, ChainMap of the reversed "
+          "stack — so a name that shadows an outer one is bound to the value of its own graph after a round trip",
     "R4": "determinism: no serialize function iterates a set-typed expression",
 }
-FLOORS = {"R1": 30, "R2": 40, "R3": 2, "R4": 30}
+FLOORS = {"R1": 30, "R2": 40, "R3": 2, "R4": 30, "R5": 2}
 EXPLANATION = (
     "Effect summaries (writes on non-proto, non-fresh objects, class-qualified) of every serialize function; "
     "comparison of the attribute sets read by the serializer and supplied by the deserializer per IR class; "
@@ -200,6 +203,20 @@ def rule_r4(ctx):
                   how="for/comprehension iterables classified (set literal, set(), set comprehension, set-bound local)")
 
 
+def rule_r5(ctx):
+    from ..shared import scope_precedence_sites, scope_stack_functions
+
+    stacks = scope_stack_functions(ctx.repo)
+    ctx.tables["scope stack holders"] = {k: v for k, v in sorted(stacks.items())}
+    ctx.require(len(stacks) >= 3, f"scope stack of the deserializer not found (holders: {sorted(stacks)})")
+    for f, node, form, winner in scope_precedence_sites(ctx.repo):
+        ctx.check("R5", f"{f.local}: {form}", winner == "inner", f, node,
+                  f"{form}: the OUTER scope's binding wins, so a name that shadows an enclosing graph's name is resolved to "
+                  "the enclosing graph's value — connectivity / annotation targets change across IR → proto → IR",
+                  how="stack order is outer→inner (append pushes); form of the scan classified (direction × first-hit/last-write)",
+                  construct=form)
+
+
 def run(ctx):
     ef = ctx._shared.get("effects")
     if ef is None:
@@ -223,3 +240,4 @@ def run(ctx):
 
     c17.rule_r3(_Sub(ctx))
     rule_r4(ctx)
+    rule_r5(ctx)
